@@ -145,7 +145,7 @@ CONFIG = {
     "C09": {"shard": 200},
     "C17": {"shard": 400},
     "C16": {"shard": 300}, "C20": {"shard": 90}, "C19": {"shard": 60}, "C18": {"shard": 400},
-    "C11": {"shard": 300}, "C10": {"shard": 300}, "C12": {"shard": 150},
+    "C11": {"shard": 300}, "C10": {"shard": 300}, "C12": {"max_out_of_model": 0.10, "shard": 150},
     "C01": {"shard": 120}, "C02": {"shard": 120}, "C03": {"shard": 100}, "C04": {"shard": 110},
     "C05": {"shard": 120}, "C06": {"shard": 100}, "C07": {"shard": 100}, "C08": {"shard": 100},
 }
